@@ -48,9 +48,13 @@ impl AstCache {
             let path = entry.path();
 
             if path.is_file() && path.extension().is_some_and(|ext| ext == "rs") {
-                // Skip target directory and other build artifacts
-                if path.to_string_lossy().contains("/target/")
-                    || path.to_string_lossy().contains("/.git/")
+                // Skip target directory and other build artifacts. Only directories *below* the
+                // project path count: a project that itself lives under a directory called
+                // `target` (or inside a `.git` worktree path) must still be analysed.
+                let relative = path.strip_prefix(project_path).unwrap_or(path);
+                if relative
+                    .components()
+                    .any(|c| c.as_os_str() == "target" || c.as_os_str() == ".git")
                 {
                     continue;
                 }
